@@ -374,6 +374,8 @@ class Program:
         self.gen = Gen(rng, self.world, {"p_comp": 0.9})
         r = rng.random()
         self.n = rng.randint(1, 8) if r < 0.6 else rng.randint(8, 20) if r < 0.9 else rng.randint(20, 60)
+        if tier == "thorough" and rng.random() < 0.2:
+            self.n = rng.randint(60, 150)  # thorough tier: some very long histories
         self.mode = rng.choice(["mixed", "mixed", "dilution", "within"])
         self.p_fault = rng.choice([0.0, 0.0, 0.1, 0.2])
 
